@@ -20,9 +20,9 @@ use vcore::{Rng, Run, Stats, Value, json};
 type Idx = BM25Index<TokenizerChain>;
 type Toks = BTreeMap<String, usize>;
 
-/// `--arg strict_stale=1`: report the (undocumented) grey zone "a stale posting left by a remove
-/// with non-original text becomes visible again once the id is re-inserted" as a violation.
-static STRICT_STALE: AtomicBool = AtomicBool::new(false);
+/// Default on (`--arg strict_stale=0` turns it off): "a stale posting left by a remove with
+/// non-original text becomes visible again once the id is re-inserted" is a violation.
+static STRICT_STALE: AtomicBool = AtomicBool::new(true);
 
 // ---------------------------------------------------------------------------------------------
 // vocabulary, ids, tokenizer (the crate's default tokenizer, shared by index and model)
@@ -175,18 +175,10 @@ impl Model {
                     } else {
                         st.count("op_reinsert_different_tokens");
                     }
-                    // an identical (id, tf) entry is the same posting entry again
-                    for (t, f) in d.iter() {
-                        if let Some(fs) = s.get_mut(t) {
-                            fs.remove(f);
-                            if fs.is_empty() {
-                                s.remove(t);
-                            }
-                        }
-                    }
-                    if s.is_empty() {
-                        self.stale.remove(id);
-                    }
+                    // the crate sweeps what a remove with non-original text left behind for this
+                    // id before it indexes the new text (`stale_ids`, documented at `remove`)
+                    s.clear();
+                    self.stale.remove(id);
                 }
                 self.last_text.remove(id);
                 st.count("op_insert_ok");
@@ -438,10 +430,21 @@ fn gen_op_any(rng: &mut Rng, m: &Model) -> Op {
             }
             let id = *rng.pick(&live);
             let orig = &m.docs[&id].text;
-            let text = match rng.below(5) {
+            let words: Vec<&str> = orig.split_whitespace().collect();
+            let text = match rng.below(8) {
                 0 => String::new(),
                 1 => "zebra".to_string(),
-                2 => orig.split_whitespace().next().unwrap_or("").to_string(),
+                2 => words.first().copied().unwrap_or("").to_string(),
+                // partly matching texts with exactly as many words as the original: one word
+                // swapped for another, or the first word repeated (seeded change C11-7 judged
+                // "the text covered the whole document" by counting the caller's tokens)
+                3 | 4 if words.len() >= 2 => {
+                    let mut w: Vec<String> = words.iter().map(|x| x.to_string()).collect();
+                    let i = rng.usize(w.len());
+                    w[i] = pw(rng, &WORDS).to_string();
+                    w.join(" ")
+                }
+                5 if words.len() >= 2 => vec![words[0]; words.len()].join(" "),
                 _ => gen_text(rng),
             };
             Op::Remove(id, text)
@@ -1420,6 +1423,26 @@ fn finding_case(case: u64, rng: &mut Rng, st: &mut Stats, n_ops: usize) {
             Op::Flush { reload: true },
         ])
     });
+    // cases 1, 2: a removal whose text matches the document only partly but counts as many
+    // words as the document holds (first word repeated / one word swapped), then a re-insert of
+    // the id with other tokens (seeded change C11-7)
+    let script = script.or_else(|| match case {
+        1 => Some((40usize, vec![
+            Op::Insert(1, "red fox".into()),
+            Op::Insert(2, "fox moon".into()),
+            Op::Remove(1, "red red".into()),
+            Op::Insert(1, "sun wolf".into()),
+            Op::Flush { reload: true },
+        ])),
+        2 => Some((1 << 20, vec![
+            Op::Insert(3, "gold iron salt".into()),
+            Op::Insert(4, "iron wind".into()),
+            Op::Remove(3, "gold dog dog".into()),
+            Op::Insert(3, "moon".into()),
+            Op::Flush { reload: false },
+        ])),
+        _ => None,
+    });
     let tainted = seq_case(case, rng, &mut local, n_ops, true, script);
     if tainted {
         for v in local.violations.iter_mut() {
@@ -1999,9 +2022,10 @@ fn main() {
          set + texts, interleavings by hook trace",
     );
     anda_db_utils::verif::set_hook(Some(vcore::sched::hook));
-    if run.arg_u64("strict_stale", 0) != 0 {
-        STRICT_STALE.store(true, Ordering::Relaxed);
-    }
+    // Since the repair of the crate (an insert sweeps what a remove with non-original text left
+    // behind for its id, `stale_ids`) a hit through such an entry is a violation of "exactly the
+    // indexed documents containing a token of the query"; `--arg strict_stale=0` only counts it.
+    STRICT_STALE.store(run.arg_u64("strict_stale", 1) != 0, Ordering::Relaxed);
     run.assume("flush is never run concurrently with mutations or compaction (documented caller contract)");
     run.assume("crash model of the callback API: each bucket/metadata write is atomic, the sequence is interruptible anywhere; a failing write may or may not have landed");
     run.assume("model tokens come from the crate's own default tokenizer + collect_tokens (the tokenizer is not under test)");
